@@ -1,5 +1,6 @@
 import SamVerif.Props.C17
 import SamVerif.Props.C17b
+import SamVerif.Props.C17c
 /-! Axiom audit of every C17 property theorem (parsed by vlib/common.py). -/
 open SamVerif.Heap SamVerif.PStr
 #print axioms inv_reachable
@@ -23,3 +24,7 @@ open SamVerif.Heap SamVerif.PStr
 #print axioms sweep_inside_window
 #print axioms cmpHandle_eq_zero_iff
 #print axioms cmpHandle_antisymm
+#print axioms bytesLt_trans
+#print axioms cmpHandle_trans
+#print axioms cmpHandle_trichotomy
+#print axioms debugUnmarked_sorted
